@@ -30,6 +30,11 @@ pub fn install_panic_hook() {
                 let f = l.file();
                 // keep the path relative to the repository so that it is stable
                 let f = f.strip_prefix("/repo/").unwrap_or(f);
+                // dependency sources: keep `crate-x.y.z/src/…` only
+                let f = match f.find("/registry/src/") {
+                    Some(i) => f[i + 14..].split_once('/').map(|x| x.1).unwrap_or(f),
+                    None => f,
+                };
                 format!("{}:{}", f, l.line())
             })
             .unwrap_or_else(|| "?".into());
